@@ -232,6 +232,13 @@ def headEndAfter (pend : Nat × Nat) (new : Lines) (r : Rect) : Nat × Nat :=
     (r.ln + dln, pend.2 - r.endCol + (new.getLast?.getD []).length + (if dln == 0 then r.col else 0))
   else (pend.1 + dln - r.endLn + r.ln, pend.2)
 
+/-- Precondition of `plan` (docstring of `_reparse_raw`: "`self` must be a node which entirely contains the location"): the
+rectangle lies inside the region of the statement-like node found from the node handed in.  `put_src` guarantees it by
+`find_contains_loc`, the raw node put by taking the common parent of the replaced node and of `to`. -/
+def rectInRegion (f : Facts) (r : Rect) : Bool :=
+  (decide (f.pln < r.ln) || (f.pln == r.ln && decide (f.pcol ≤ r.col)))
+  && (decide (r.endLn < f.pendLn) || (r.endLn == f.pendLn && decide (r.endCol ≤ f.pendCol)))
+
 /-- The text handed to the parser: the copy with the new text spliced in at the SAME rectangle. -/
 def handed (p : Plan) (new : Lines) (r : Rect) : Lines := putSrc p.copyLines new r
 
